@@ -102,7 +102,8 @@ func genDL(purpose string) func(t *rapid.T) dlCase {
 		}
 		switch rapid.IntRange(0, 5).Draw(t, "limitKind") {
 		case 0:
-			c.Limit = genLimitCfg(t, []string{"aimd", "vegas", "gradient2"}, false)
+			// (c05 / c02: the algorithm may sit behind windowed / traced wrappers - the limiter only ever talks to the outermost one)
+			c.Limit = genLimitCfg(t, []string{"aimd", "vegas", "gradient2"}, purpose == "c05" || purpose == "c02")
 			if c.Limit.Initial > 40 {
 				c.Limit.Initial = 1 + c.Limit.Initial%40
 				if c.Limit.Min > c.Limit.Initial {
